@@ -48,8 +48,8 @@ open MdIt.InlineOps (Srcmap getSourcePosFor getMap byteLen slice)
 
 /-! ## panics -/
 
-inductive Panic where
-  | fuel        -- the model ran out of fuel (not a Rust panic; excluded by `fuel_suffices`)
+/-- the panics of the Rust code -/
+inductive RPanic where
   | unwrap      -- `Option::unwrap()` on `None`
   | slice       -- `&s[a..b]` out of range / inside a character / `a > b`; `split_off` past the end
   | underflow   -- unsigned subtraction below zero
@@ -59,33 +59,48 @@ inductive Panic where
   | fromU32     -- `char::from_u32(..).unwrap()` on `None`
   deriving Repr, DecidableEq
 
-def Panic.ofOps : InlineOps.Panic → Panic
+/-- outcome classes of the recursive part of the model: a Rust panic, or the model ran out of
+    fuel (not a Rust panic; excluded by `fuel_suffices`).  Rules without look-ahead recursion
+    return `Except RPanic _`: they cannot run out of fuel by construction. -/
+inductive Panic where
+  | fuel
+  | rust (p : RPanic)
+  deriving Repr, DecidableEq
+
+def RPanic.ofOps : InlineOps.Panic → RPanic
   | .underflow => .underflow
   | .index => .index
   | .slice => .slice
   | .unwrap => .unwrap
   | .assert => .assert
 
-def Panic.ofCode : CodePair.Panic → Panic
+def RPanic.ofCode : CodePair.Panic → RPanic
   | .slice => .slice
   | .unwrap => .unwrap
   | .index => .index
   | .underflow => .underflow
   | .assert => .assert
 
-def Panic.ofEntity : Entity.Panic → Panic
+/-- (`Entity.Panic.fuel` belongs to `Entity.inlineLoop`, which is not used here; `escapeCore` and
+    `entityCore` never produce it) -/
+def RPanic.ofEntity : Entity.Panic → RPanic
   | .unwrapNone => .unwrap
   | .slice => .slice
   | .radix => .radix
   | .fromU32 => .fromU32
-  | .fuel => .fuel
+  | .fuel => .unwrap
 
-def Panic.ofLink : Link.Panic → Panic
+def RPanic.ofLink : Link.Panic → RPanic
   | .slice => .slice
 
-def liftOps {α : Type} : Except InlineOps.Panic α → Except Panic α
+def liftOps {α : Type} : Except InlineOps.Panic α → Except RPanic α
   | .ok a => .ok a
-  | .error e => .error (Panic.ofOps e)
+  | .error e => .error (RPanic.ofOps e)
+
+/-- a Rust-level result inside the fuel-driven recursion -/
+def liftR {α : Type} : Except RPanic α → Except Panic α
+  | .ok a => .ok a
+  | .error e => .error (.rust e)
 
 /-! ## the inline tree -/
 
@@ -275,11 +290,11 @@ def IState.init (src : List Char) (srcmap : Srcmap) : IState :=
     children := [], bottoms := [] }
 
 /-- `state.src[state.pos..state.pos_max]` -/
-def IState.window (st : IState) : Except Panic (List Char) :=
+def IState.window (st : IState) : Except RPanic (List Char) :=
   liftOps (slice st.src st.pos st.posMax)
 
 /-- `state.get_map(a, b)` -/
-def IState.getMap (st : IState) (a b : Nat) : Except Panic (Nat × Nat) :=
+def IState.getMap (st : IState) (a b : Nat) : Except RPanic (Nat × Nat) :=
   liftOps (InlineOps.getMap st.srcmap a b)
 
 /-! ## `trailing_text_push / pop / get` on the rich node type
@@ -296,8 +311,8 @@ def popLast {α : Type} : List α → Option (List α × α)
 
 /-- `trailing_text_push(start, end)` -/
 def trailingTextPush (src : List Char) (m : Srcmap) (children : List Node) (start stop : Nat) :
-    Except Panic (List Node) :=
-  let fresh : Except Panic (List Node) :=
+    Except RPanic (List Node) :=
+  let fresh : Except RPanic (List Node) :=
     match liftOps (slice src start stop) with
     | .error e => .error e
     | .ok piece =>
@@ -322,7 +337,7 @@ def trailingTextPush (src : List Char) (m : Srcmap) (children : List Node) (star
     else fresh
 
 /-- `trailing_text_pop(count)` -/
-def trailingTextPop (children : List Node) (count : Nat) : Except Panic (List Node) :=
+def trailingTextPop (children : List Node) (count : Nat) : Except RPanic (List Node) :=
   if count = 0 then .ok children else
   match popLast children with
   | none => .error .unwrap
@@ -348,7 +363,7 @@ def trailingTextGet (children : List Node) : List Char :=
   | some (_, last) => if last.isText then last.content else []
 
 /-- `state.trailing_text_push(a, b)` -/
-def IState.pushText (st : IState) (a b : Nat) : Except Panic IState :=
+def IState.pushText (st : IState) (a b : Nat) : Except RPanic IState :=
   match trailingTextPush st.src st.srcmap st.children a b with
   | .error e => .error e
   | .ok cs => .ok { st with children := cs }
@@ -357,12 +372,15 @@ def IState.pushText (st : IState) (a b : Nat) : Except Panic IState :=
 def IState.push (st : IState) (n : Node) : IState := { st with children := st.children ++ [n] }
 
 /-- what a rule returns (`Option<usize>`) together with the state it leaves -/
+abbrev SRes := Except RPanic (Option Nat × IState)
+
+/-- the same inside the fuel-driven recursion (link, image and the two loops) -/
 abbrev RuleRes := Except Panic (Option Nat × IState)
 
 /-! ## `TextScanner` (`SkipPunct`) -/
 
 /-- `TextScanner::run` -/
-def ruleText (st : IState) (silent : Bool) : RuleRes :=
+def ruleText (st : IState) (silent : Bool) : SRes :=
   match st.window with
   | .error e => .error e
   | .ok w =>
@@ -380,7 +398,7 @@ def ruleText (st : IState) (silent : Bool) : RuleRes :=
 def tailSpaces (s : List Char) : Nat := (s.reverse.takeWhile (· == ' ')).length
 
 /-- `NewlineScanner::run` -/
-def ruleNewline (st : IState) (silent : Bool) : RuleRes :=
+def ruleNewline (st : IState) (silent : Bool) : SRes :=
   match st.window with
   | .error e => .error e
   | .ok [] => .error .unwrap
@@ -410,12 +428,12 @@ def infoEscape : List Char := "escape".toList
 def infoEntity : List Char := "entity".toList
 
 /-- `EscapeScanner::run` -/
-def ruleEscape (st : IState) (silent : Bool) : RuleRes :=
+def ruleEscape (st : IState) (silent : Bool) : SRes :=
   match st.window with
   | .error e => .error e
   | .ok w =>
     match Entity.escapeCore w with
-    | .error e => .error (Panic.ofEntity e)
+    | .error e => .error (RPanic.ofEntity e)
     | .ok none => .ok (none, st)
     | .ok (some (.hardbreak len)) =>
       -- `\` + line feed + blanks: all single bytes
@@ -436,7 +454,7 @@ def ruleEscape (st : IState) (silent : Bool) : RuleRes :=
 /-! ## `EntityScanner` (through `Entity.entityCore`) -/
 
 /-- `EntityScanner::run`: the window decides the branch, the regexes see `src[pos..]` -/
-def ruleEntity (cfg : Cfg) (st : IState) (silent : Bool) : RuleRes :=
+def ruleEntity (cfg : Cfg) (st : IState) (silent : Bool) : SRes :=
   match st.window with
   | .error e => .error e
   | .ok w =>
@@ -449,7 +467,7 @@ def ruleEntity (cfg : Cfg) (st : IState) (silent : Bool) : RuleRes :=
         | .error e => .error e
         | .ok suffix =>
           match Entity.entityCore cfg.entity w suffix with
-          | .error e => .error (Panic.ofEntity e)
+          | .error e => .error (RPanic.ofEntity e)
           | .ok none => .ok (none, st)
           | .ok (some sp) =>
             -- `capture[0].len()`
@@ -466,9 +484,9 @@ def ruleEntity (cfg : Cfg) (st : IState) (silent : Bool) : RuleRes :=
 /-- ``CodePairScanner<'`', false>::run``: the rule of `MdIt.CodePair` on the cache kept in
     `inline_env`; in real mode the two `get_map` translations are applied to the inline offsets the
     code-span model records, and the node is pushed. -/
-def ruleBackticks (st : IState) (silent : Bool) : RuleRes :=
+def ruleBackticks (st : IState) (silent : Bool) : SRes :=
   match CodePair.run CodePair.Variant.current '`' st.src st.pos st.posMax false silent st.backticks with
-  | .error e => .error (Panic.ofCode e)
+  | .error e => .error (RPanic.ofCode e)
   | .ok (none, c) => .ok (none, { st with backticks := c })
   | .ok (some o, c) =>
     match o.node with
@@ -551,7 +569,7 @@ def autolinkScan : List Char → Nat → Option Nat
     else autolinkScan r (pos + c.utf8Size)
 
 /-- `AutolinkScanner::run` -/
-def ruleAutolink (st : IState) (silent : Bool) : RuleRes :=
+def ruleAutolink (st : IState) (silent : Bool) : SRes :=
   match st.window with
   | .error e => .error e
   | .ok [] => .error .unwrap
@@ -599,9 +617,9 @@ structure DelimRun where
 
 /-- `InlineState::scan_delims(start, can_split_word)` -/
 def scanDelims (cfg : Cfg) (src : List Char) (posMax start : Nat) (canSplitWord : Bool) :
-    Except Panic DelimRun :=
+    Except RPanic DelimRun :=
   -- `self.src[..start].chars().next_back().unwrap()` / `' '`
-  let lastCharE : Except Panic Char :=
+  let lastCharE : Except RPanic Char :=
     if start > 0 then
       match liftOps (slice src 0 start) with
       | .error e => .error e
@@ -682,7 +700,7 @@ structure MatchSt where
     returns the opener value afterwards and the matching state.  `fuel` is `closer.remaining`
     (each iteration takes at least one marker off it). -/
 def matchInner (fns : Nat → Option Wrap) (mk : Char) (idx : Nat) :
-    Nat → Marker → MatchSt → Except Panic (Marker × MatchSt)
+    Nat → Marker → MatchSt → Except RPanic (Marker × MatchSt)
   | 0, opener, ms => .ok (opener, ms)
   | fuel + 1, opener, ms =>
     if ms.closer.remaining > 0 ∧ opener.remaining > 0 then
@@ -709,7 +727,7 @@ def matchInner (fns : Nat → Option Wrap) (mk : Char) (idx : Nat) :
             match popLast head with
             | none => .error .unwrap
             | some (init, otok) =>
-              let cut : Except Panic (Node × Nat) :=
+              let cut : Except RPanic (Node × Nat) :=
                 match otok.range with
                 | some (s, e) =>
                   if e < ml then .error .underflow
@@ -728,14 +746,14 @@ def matchInner (fns : Nat → Option Wrap) (mk : Char) (idx : Nat) :
     else .ok (opener, ms)
 
 /-- `state.node.children[idx].replace(opener)` -/
-def replaceAt (cs : List Node) (idx : Nat) (m : Marker) : Except Panic (List Node) :=
+def replaceAt (cs : List Node) (idx : Nat) (m : Marker) : Except RPanic (List Node) :=
   match cs[idx]? with
   | none => .error .index
   | some n => .ok (cs.set idx { n with val := m.toVal })
 
 /-- the outer `while idx > min_opener_idx { idx -= 1; .. }`; `k` is `idx - min_opener_idx` -/
 def matchOuter (fns : Nat → Option Wrap) (mk : Char) (minIdx : Nat) :
-    Nat → MatchSt → Except Panic MatchSt
+    Nat → MatchSt → Except RPanic MatchSt
   | 0, ms => .ok ms
   | k + 1, ms =>
     -- `idx -= 1`
@@ -746,7 +764,7 @@ def matchOuter (fns : Nat → Option Wrap) (mk : Char) (minIdx : Nat) :
       match tok.asMarker with
       | none => matchOuter fns mk minIdx k ms
       | some opener =>
-        let go : Except Panic (Marker × MatchSt) :=
+        let go : Except RPanic (Marker × MatchSt) :=
           if opener.open_ && opener.marker == ms.closer.marker && !isOddMatch opener ms.closer then
             matchInner fns mk idx ms.closer.remaining opener ms
           else .ok (opener, ms)
@@ -774,7 +792,7 @@ def bottomsSet (b : List (Char × List Nat)) (mk : Char) (i v : Nat) : List (Cha
 
 /-- `scan_and_match_delimiters::<MARKER>(state)` on `(children, bottoms)` -/
 def scanAndMatch (fns : Nat → Option Wrap) (mk : Char) (children : List Node)
-    (bottoms : List (Char × List Nat)) : Except Panic (List Node × List (Char × List Nat)) :=
+    (bottoms : List (Char × List Nat)) : Except RPanic (List Node × List (Char × List Nat)) :=
   if children.length = 1 then .ok (children, bottoms)
   else
     match popLast children with
@@ -803,7 +821,7 @@ def scanAndMatch (fns : Nat → Option Wrap) (mk : Char) (children : List Node)
               else .ok (ms.children, bottoms')
 
 /-- `EmphPairScanner<MARKER, CAN_SPLIT_WORD>::run` -/
-def ruleEmph (cfg : Cfg) (mk : Char) (canSplitWord : Bool) (st : IState) (silent : Bool) : RuleRes :=
+def ruleEmph (cfg : Cfg) (mk : Char) (canSplitWord : Bool) (st : IState) (silent : Bool) : SRes :=
   if silent then .ok (none, st)
   else
     match st.window with
@@ -847,7 +865,7 @@ def labelLoop (skip : IState → Except Panic IState) (enableNested : Bool) :
     Nat → Int → IState → Except Panic (Option Bool × IState)
   | 0, _, _ => .error .fuel
   | fuel + 1, level, st =>
-    match st.window with
+    match liftR st.window with
     | .error e => .error e
     | .ok [] => .ok (some false, st)
     | .ok (ch :: _) =>
@@ -860,7 +878,7 @@ def labelLoop (skip : IState → Except Panic IState) (enableNested : Bool) :
         | .ok st' =>
           if ch = '[' then
             -- `prev_pos == state.pos - 1`
-            if st'.pos = 0 then .error .underflow
+            if st'.pos = 0 then .error (.rust .underflow)
             else if prevPos = st'.pos - 1 then labelLoop skip enableNested fuel (level + 1) st'
             else if !enableNested then .ok (none, st')
             else labelLoop skip enableNested fuel level st'
@@ -879,7 +897,7 @@ def parseLinkLabel (skip : IState → Except Panic IState) (fuel : Nat) (st : IS
 /-- the "Link reference" part of `parse_link` (behind the inline form) -/
 def parseLinkRef (cfg : Cfg) (skip : IState → Except Panic IState) (fuel : Nat) (st : IState)
     (labelStart labelEnd : Nat) : Except Panic (Option LinkRes × IState) :=
-  match liftOps (slice st.src (labelEnd + 1) st.posMax) with
+  match liftR (liftOps (slice st.src (labelEnd + 1) st.posMax)) with
   | .error e => .error e
   | .ok w =>
     -- `maybe_label`, `pos`
@@ -889,7 +907,7 @@ def parseLinkRef (cfg : Cfg) (skip : IState → Except Panic IState) (fuel : Nat
         match parseLinkLabel skip fuel st (labelEnd + 1) false with
         | .error e => .error e
         | .ok (some x, st') =>
-          match liftOps (slice st.src (labelEnd + 1 + 1) x) with
+          match liftR (liftOps (slice st.src (labelEnd + 1 + 1) x)) with
           | .error e => .error e
           | .ok l => .ok (some l, x + 1, st')
         | .ok (none, st') => .ok (none, labelEnd + 1, st')
@@ -902,8 +920,8 @@ def parseLinkRef (cfg : Cfg) (skip : IState → Except Panic IState) (fuel : Nat
       | some refs =>
         let labelE : Except Panic (List Char) :=
           match maybeLabel with
-          | none => liftOps (slice st.src labelStart labelEnd)
-          | some [] => liftOps (slice st.src labelStart labelEnd)
+          | none => liftR (liftOps (slice st.src labelStart labelEnd))
+          | some [] => liftR (liftOps (slice st.src labelStart labelEnd))
           | some l => .ok l
         match labelE with
         | .error e => .error e
@@ -924,7 +942,7 @@ def parseLink (cfg : Cfg) (skip : IState → Except Panic IState) (fuel : Nat) (
   | .ok (some labelEnd, st1) =>
     let labelStart := pos + 1
     match Link.parseInlineTail (Entity.unescapeAll cfg.entity) st1.src (labelEnd + 1) st1.posMax with
-    | .error e => .error (Panic.ofLink e)
+    | .error e => .error (.rust (RPanic.ofLink e))
     | .ok (some il) =>
       .ok (some { labelStart := labelStart, labelEnd := labelEnd, href := il.href, title := il.title,
                   endPos := il.endPos }, st1)
@@ -942,7 +960,7 @@ def linkRule (cfg : Cfg) (skip tok : IState → Except Panic IState) (fuel : Nat
   | .ok (some res, st1) =>
     if silent then
       -- `Some(result.end - state.pos)`
-      if res.endPos < st1.pos then .error .underflow else .ok (some (res.endPos - st1.pos), st1)
+      if res.endPos < st1.pos then .error (.rust .underflow) else .ok (some (res.endPos - st1.pos), st1)
     else
       -- `mem::replace(&mut state.node, f(..))`: fresh children, fresh env
       let max := st1.posMax
@@ -953,9 +971,9 @@ def linkRule (cfg : Cfg) (skip tok : IState → Except Panic IState) (fuel : Nat
       | .error e => .error e
       | .ok st3 =>
         -- `state.level -= 1`
-        if st3.level = 0 then .error .underflow
+        if st3.level = 0 then .error (.rust .underflow)
         else
-          match st3.getMap start res.endPos with
+          match liftR (st3.getMap start res.endPos) with
           | .error e => .error e
           | .ok r =>
             let node : Node :=
@@ -963,15 +981,15 @@ def linkRule (cfg : Cfg) (skip tok : IState → Except Panic IState) (fuel : Nat
             let st4 : IState :=
               { st3 with level := st3.level - 1, posMax := max, children := st1.children ++ [node],
                          bottoms := st1.bottoms, linkLevel := st3.linkLevel - 1 }
-            if res.endPos < st4.pos then .error .underflow
+            if res.endPos < st4.pos then .error (.rust .underflow)
             else .ok (some (res.endPos - st4.pos), st4)
 
 /-- `LinkScanner<false>::run` -/
 def ruleLink (cfg : Cfg) (skip tok : IState → Except Panic IState) (fuel : Nat)
     (st : IState) (silent : Bool) : RuleRes :=
-  match st.window with
+  match liftR st.window with
   | .error e => .error e
-  | .ok [] => .error .unwrap
+  | .ok [] => .error (.rust .unwrap)
   | .ok (c :: _) =>
     if c ≠ '[' then .ok (none, st)
     else linkRule cfg skip tok fuel Val.link false 0 st silent
@@ -979,7 +997,7 @@ def ruleLink (cfg : Cfg) (skip tok : IState → Except Panic IState) (fuel : Nat
 /-- `LinkPrefixScanner<'!', true>::run` -/
 def ruleImage (cfg : Cfg) (skip tok : IState → Except Panic IState) (fuel : Nat)
     (st : IState) (silent : Bool) : RuleRes :=
-  match st.window with
+  match liftR st.window with
   | .error e => .error e
   | .ok ('!' :: '[' :: _) => linkRule cfg skip tok fuel Val.image true 1 st silent
   | .ok _ => .ok (none, st)
@@ -988,16 +1006,16 @@ def ruleImage (cfg : Cfg) (skip tok : IState → Except Panic IState) (fuel : Na
 def runRule (cfg : Cfg) (skip tok : IState → Except Panic IState) (fuel : Nat) (id : RuleId)
     (st : IState) (silent : Bool) : RuleRes :=
   match id with
-  | .text => ruleText st silent
-  | .newline => ruleNewline st silent
-  | .escape => ruleEscape st silent
-  | .backticks => ruleBackticks st silent
-  | .emph mk csw => ruleEmph cfg mk csw st silent
+  | .text => liftR (ruleText st silent)
+  | .newline => liftR (ruleNewline st silent)
+  | .escape => liftR (ruleEscape st silent)
+  | .backticks => liftR (ruleBackticks st silent)
+  | .emph mk csw => liftR (ruleEmph cfg mk csw st silent)
   | .link => ruleLink cfg skip tok fuel st silent
   | .image => ruleImage cfg skip tok fuel st silent
   | .linkEnd => .ok (none, st)
-  | .autolink => ruleAutolink st silent
-  | .entity => ruleEntity cfg st silent
+  | .autolink => liftR (ruleAutolink st silent)
+  | .entity => liftR (ruleEntity cfg st silent)
 
 /-- `for rule in self.ruler.iter() { ok = rule(..); if ok.is_some() { break; } }` -/
 def firstRule (run : RuleId → IState → RuleRes) : List RuleId → IState → RuleRes
@@ -1013,67 +1031,81 @@ def silentBumped (run : IState → Bool → RuleRes) (st : IState) : RuleRes :=
   match run { st with level := st.level + 1 } true with
   | .error e => .error e
   | .ok (r, st') =>
-    if st'.level = 0 then .error .underflow else .ok (r, { st' with level := st'.level - 1 })
+    if st'.level = 0 then .error (.rust .underflow) else .ok (r, { st' with level := st'.level - 1 })
 
 /-- `state.cache.insert(k, v)` -/
 def cacheInsert (c : List (Nat × Nat)) (k v : Nat) : List (Nat × Nat) := (k, v) :: c
 
 /-- the fall-back of both loops: `state.src[state.pos..state.pos_max].chars().next().unwrap()` -/
 def firstChar (st : IState) : Except Panic Char :=
-  match st.window with
+  match liftR st.window with
   | .error e => .error e
-  | .ok [] => .error .unwrap
+  | .ok [] => .error (.rust .unwrap)
   | .ok (c :: _) => .ok c
 
-mutual
-/-- `InlineParser::tokenize`: the `while state.pos < end` loop (`end_` = `pos_max` at entry) -/
-def tokLoop (cfg : Cfg) : Nat → Nat → IState → Except Panic IState
-  | 0, _, _ => .error .fuel
-  | fuel + 1, end_, st =>
-    if st.pos < end_ then
-      let ok : RuleRes :=
-        if st.level < cfg.maxNesting then
-          firstRule (fun id s =>
-            runRule cfg (fun s => skipToken cfg fuel s) (fun s => tokLoop cfg fuel s.posMax s) fuel id s false)
-            cfg.chain st
-        else .ok (none, st)
-      match ok with
+/-- ONE iteration of the `while state.pos < end` loop of `InlineParser::tokenize` (entered with
+    `state.pos < end`): the chain in real mode below the nesting limit, `state.pos += len` on
+    success, otherwise one character goes to the pending text.  `skip` / `tok` are
+    `skip_token` / `tokenize` as the rules see them. -/
+def tokStep (cfg : Cfg) (skip tok : IState → Except Panic IState) (fuel : Nat) (st : IState) :
+    Except Panic IState :=
+  let ok : RuleRes :=
+    if st.level < cfg.maxNesting then
+      firstRule (fun id s => runRule cfg skip tok fuel id s false) cfg.chain st
+    else .ok (none, st)
+  match ok with
+  | .error e => .error e
+  | .ok (some len, st') => .ok { st' with pos := st'.pos + len }
+  | .ok (none, st') =>
+    match firstChar st' with
+    | .error e => .error e
+    | .ok ch =>
+      match liftR (st'.pushText st'.pos (st'.pos + ch.utf8Size)) with
       | .error e => .error e
-      | .ok (some len, st') =>
-        let st'' := { st' with pos := st'.pos + len }
-        if st''.pos ≥ end_ then .ok st'' else tokLoop cfg fuel end_ st''
-      | .ok (none, st') =>
-        match firstChar st' with
+      | .ok st'' => .ok { st'' with pos := st''.pos + ch.utf8Size }
+
+/-- the body of `skip_token` behind the memo lookup and the level guard: the chain in silent mode
+    (each rule between `level += 1` / `level -= 1`), `state.pos += len` or one character, then
+    `state.cache.insert(pos, state.pos)` -/
+def skipStep (cfg : Cfg) (skip tok : IState → Except Panic IState) (fuel : Nat) (st : IState) :
+    Except Panic IState :=
+  let pos := st.pos
+  match firstRule (fun id s => silentBumped (runRule cfg skip tok fuel id) s) cfg.chain st with
+  | .error e => .error e
+  | .ok (some len, st') =>
+    .ok { st' with pos := st'.pos + len, cache := cacheInsert st'.cache pos (st'.pos + len) }
+  | .ok (none, st') =>
+    match firstChar st' with
+    | .error e => .error e
+    | .ok ch =>
+      .ok { st' with pos := st'.pos + ch.utf8Size,
+                     cache := cacheInsert st'.cache pos (st'.pos + ch.utf8Size) }
+
+mutual
+/-- `InlineParser::tokenize`: the `while state.pos < end` loop (`end_` = `pos_max` at entry).
+    (`if state.pos >= end { break; }` behind a successful rule is the loop test taken early.) -/
+def tokLoop (cfg : Cfg) : Nat → Nat → IState → Except Panic IState
+  | fuel, end_, st =>
+    if st.pos < end_ then
+      match fuel with
+      | 0 => .error .fuel
+      | fuel + 1 =>
+        match tokStep cfg (fun s => skipToken cfg fuel s) (fun s => tokLoop cfg fuel s.posMax s) fuel st with
         | .error e => .error e
-        | .ok ch =>
-          match st'.pushText st'.pos (st'.pos + ch.utf8Size) with
-          | .error e => .error e
-          | .ok st'' => tokLoop cfg fuel end_ { st'' with pos := st''.pos + ch.utf8Size }
+        | .ok st' => tokLoop cfg fuel end_ st'
     else .ok st
 /-- `InlineParser::skip_token` -/
 def skipToken (cfg : Cfg) : Nat → IState → Except Panic IState
   | 0, _ => .error .fuel
   | fuel + 1, st =>
-    let pos := st.pos
-    match st.cache.lookup pos with
+    match st.cache.lookup st.pos with
     | some x => .ok { st with pos := x }
     | none =>
       if st.level < cfg.maxNesting then
-        match firstRule (fun id s => silentBumped
-                (runRule cfg (fun s => skipToken cfg fuel s) (fun s => tokLoop cfg fuel s.posMax s) fuel id) s)
-              cfg.chain st with
-        | .error e => .error e
-        | .ok (some len, st') =>
-          .ok { st' with pos := st'.pos + len, cache := cacheInsert st'.cache pos (st'.pos + len) }
-        | .ok (none, st') =>
-          match firstChar st' with
-          | .error e => .error e
-          | .ok ch =>
-            .ok { st' with pos := st'.pos + ch.utf8Size,
-                           cache := cacheInsert st'.cache pos (st'.pos + ch.utf8Size) }
+        skipStep cfg (fun s => skipToken cfg fuel s) (fun s => tokLoop cfg fuel s.posMax s) fuel st
       else
         -- Too much nesting, just skip until the end of the paragraph.
-        .ok { st with pos := st.posMax, cache := cacheInsert st.cache pos st.posMax }
+        .ok { st with pos := st.posMax, cache := cacheInsert st.cache st.pos st.posMax }
 end
 
 /-- `InlineParser::tokenize(state)` -/
